@@ -107,9 +107,20 @@ pub fn render_styles(spec: &XlsxSpec, esc: &mut Esc, implicit_xf0: bool) -> Styl
     let mut attr_special = false;
     // number formats
     let mut nf_xml = String::new();
-    let mut num_fmts = Vec::new();
+    let mut num_fmts: Vec<DNumFmt> = Vec::new();
+    // some declared formats REDEFINE a built-in id (WPS and localised Excel write 41-44 and
+    // others with their own codes): the declared code wins over the implied one
+    const REDEFINED: [u32; 8] = [44, 14, 37, 22, 38, 41, 39, 40];
+    let redefine_bits = crate::engine::splitmix(spec.seed ^ 0xF0);
+    let fmt_id = |i: usize| -> u32 {
+        if i < REDEFINED.len() && (redefine_bits >> i) & 1 == 1 {
+            REDEFINED[i]
+        } else {
+            164 + i as u32
+        }
+    };
     for (i, code) in spec.num_fmts.iter().enumerate() {
-        let id = 164 + i as u32;
+        let id = fmt_id(i);
         if code.contains(|c| matches!(c, '<' | '>' | '&' | '"' | '\'')) {
             attr_special = true;
         }
@@ -193,7 +204,7 @@ pub fn render_styles(spec: &XlsxSpec, esc: &mut Esc, implicit_xf0: bool) -> Styl
         all.push(XfSpec { num_fmt: 0, font: 0, fill: 0, border: 0, xf_id: 0, flags: false, align: None, prot: None });
     }
     all.extend(spec.xfs.iter().cloned());
-    let nf_choices: Vec<u32> = BUILTIN_IDS.iter().cloned().chain((0..spec.num_fmts.len()).map(|i| 164 + i as u32)).collect();
+    let nf_choices: Vec<u32> = BUILTIN_IDS.iter().cloned().chain((0..spec.num_fmts.len()).map(fmt_id)).collect();
     for (k, x) in all.iter().enumerate() {
         let (nf, font, fill, border, xf_id) = if k == 0 {
             (0u32, 0usize, 0usize, 0usize, 0usize)
@@ -279,7 +290,11 @@ pub fn render_styles(spec: &XlsxSpec, esc: &mut Esc, implicit_xf0: bool) -> Styl
         } else {
             xfs_xml.push_str(&format!("<xf {}>{}</xf>", attrs, inner));
         }
-        let (code, builtin) = if nf >= 164 { (spec.num_fmts[(nf - 164) as usize].clone(), false) } else { (builtin_code(nf).to_string(), true) };
+        let declared = (0..spec.num_fmts.len()).find(|i| fmt_id(*i) == nf);
+        let (code, builtin) = match declared {
+            Some(i) => (spec.num_fmts[i].clone(), false),
+            None => (builtin_code(nf).to_string(), true),
+        };
         xfs_m.push(DXf {
             num_fmt_id: nf,
             num_fmt_code: Some(code),
@@ -324,5 +339,6 @@ pub fn render_styles(spec: &XlsxSpec, esc: &mut Esc, implicit_xf0: bool) -> Styl
         dxfs: 0,
         declared: Default::default(),
     };
+    num_fmts.sort_by_key(|n| n.id);
     StylesOut { xml, xfs: xfs_m, counts, num_fmts, attr_special }
 }
